@@ -2,6 +2,12 @@
 from ._structure import run_structure
 
 META = ("other",
+        "C08.R1 grammar refinement - the token language each statement renderer can write (NFA built from the linked template "
+        "IR: guards free, but correlated boolean flags, shared first-flags, loop-index guards, constant enum arguments, "
+        "variants excluded by a calling match and fold decision tables tracked) is included in the dialect grammar skeleton "
+        "specs/<dialect>.ebnf; a counterexample is a shortest token string with the emission that leaves the grammar; C08.R6 "
+        "hook discipline - inner renderers of overridable backend hooks (specs/hooks.json) are called only from implementations "
+        "of the hook;  "
         "Structural conditions of the MySQL and PostgreSQL query renderers over the linked template IR: C08.R2 parentheses, "
         "token adjacency, separator discipline; C08.R3 field consumption per backend (nothing the builder was given is dropped; a "
         "clause is guarded only by its own emptiness; reviewed dialect exceptions), no partial rendering of a clause vector; "
